@@ -103,7 +103,7 @@ func Run(c *vh.Ctx) {
 		case "cycle":
 			r.runCycle()
 		case "share":
-			r.runShare(shareCase{Name: cs.Mut, Src: cs.Src, Want: wantOfShare(cs.Mut)})
+			r.runShare(shareByName(cs.Mut, cs.Src))
 		default:
 			r.runCase(cs, true)
 		}
@@ -115,8 +115,13 @@ func Run(c *vh.Ctx) {
 			c.Note("bad replay: %v", err)
 			return
 		}
-		if cs.Kind == "triple-ref" { // {"kind":"triple-ref","shape":..,"route":..,"mut":..,"side":..}
+		switch cs.Kind {
+		case "triple-ref": // {"kind":"triple-ref","shape":..,"route":..,"mut":..,"side":..}
 			if t := tripleByNames(cs.Shape, cs.Route, cs.Mut, cs.Side); t != nil {
+				cs = *t
+			}
+		case "kv-ref":
+			if t := kvByNames(cs.Shape, cs.Route, cs.Mut, cs.Side); t != nil {
 				cs = *t
 			}
 		}
@@ -204,7 +209,7 @@ func Run(c *vh.Ctx) {
 
 	// ---- 2. seeded programs, writes at depth 1 only (the discipline of the _partial theorem)
 	g := &gen{r: c.Rand, nv: 4}
-	for i := 0; i < c.N(2500, 120000); i++ {
+	for i := 0; i < c.N(8000, 120000); i++ {
 		if i%200 == 0 && tooManyCrashes() {
 			return
 		}
@@ -225,7 +230,7 @@ func Run(c *vh.Ctx) {
 	//         the model predicts value semantics (model = spec), otherwise only the
 	//         correspondence is checked (the model predicts the leak exactly)
 	g.nested = true
-	for i := 0; i < c.N(2500, 120000); i++ {
+	for i := 0; i < c.N(8000, 120000); i++ {
 		if i%200 == 0 && tooManyCrashes() {
 			return
 		}
@@ -245,13 +250,13 @@ func Run(c *vh.Ctx) {
 	}
 }
 
-func wantOfShare(name string) string {
+func shareByName(name, src string) shareCase {
 	for _, s := range shareCases {
 		if s.Name == name {
-			return s.Want
+			return s
 		}
 	}
-	return ""
+	return shareCase{Name: name, Src: src}
 }
 
 func tripleByNames(sh, ro, mu, side string) *Case {
@@ -260,4 +265,17 @@ func tripleByNames(sh, ro, mu, side string) *Case {
 		return nil
 	}
 	return triple(s, r, m, side)
+}
+
+func kvByNames(sh, ro, mu, side string) *Case {
+	for _, s := range kvShapes {
+		for _, r := range kvRoutes {
+			for _, m := range kvMuts {
+				if s.Name == sh && r.Name == ro && m.Name == mu {
+					return kvCase(s, r, m, side)
+				}
+			}
+		}
+	}
+	return nil
 }
